@@ -4,6 +4,7 @@ import (
 	"fmt"
 	"math"
 	"sort"
+	"strconv"
 	"strings"
 
 	"github.com/rulego/streamsql/utils/cast"
@@ -910,7 +911,7 @@ func (f *DeduplicateFunction) Execute(ctx *FunctionContext, args []any) (any, er
 	var result []any
 
 	for _, arg := range args {
-		key := fmt.Sprintf("%v", arg)
+		key := dedupKey(arg)
 		if !seen[key] {
 			seen[key] = true
 			result = append(result, arg)
@@ -1575,8 +1576,21 @@ func (f *DeduplicateAggregatorFunction) New() AggregatorFunction {
 	}
 }
 
+// dedupKey identifies a value for deduplicate. Numbers are keyed by their numeric value so that
+// 1000001 (int) and 1000001.0 (float64) are the same value whatever %v would print for them
+// ("1000001" vs "1.000001e+06"); small numbers already compared equal that way.
+func dedupKey(value any) string {
+	switch value.(type) {
+	case int, int8, int16, int32, int64, uint, uint8, uint16, uint32, uint64, float32, float64:
+		if n, err := cast.ToFloat64E(value); err == nil {
+			return strconv.FormatFloat(n, 'g', -1, 64)
+		}
+	}
+	return fmt.Sprintf("%v", value)
+}
+
 func (f *DeduplicateAggregatorFunction) Add(value any) {
-	key := fmt.Sprintf("%v", value)
+	key := dedupKey(value)
 	if !f.seen[key] {
 		f.seen[key] = true
 		f.values = append(f.values, value)
